@@ -15,8 +15,16 @@ checks on the real code
       one rule block have the same `unicode_display_len` (the width `assert_one_length` uses) (cls  rail-*)
 
 Cases whose ORIGINAL model cannot be built (the grammar text is not a grammar, the regex does not compile,
-...) are skipped and not counted as non-trivial; whitespace/comment patterns that match the empty string
-are left out of the domain (they hang the tokenizer: D29, property C08/C09).
+...) are skipped and not counted as non-trivial -- except the hand-written grammars (rules, antlr, files,
+every term kind in the plain context), which the pinned tree accepts: there a model that cannot be built
+is reported, so that a broken compiler cannot make the run vacuous.  Whitespace/comment patterns that
+match the empty string are left out of the domain (they hang the tokenizer: D29, property C08/C09).
+Each model is also taken through `Grammar.load(json(m.asjson()))` and `m.optimized()` ("however
+obtained"); such a variant is checked again only when its pretty text differs from the plain model's
+(the same text recompiles to the same model).  One report per (case, variant): the most severe failed
+check (pretty raises > recompile > parse > meta > fixpoint) plus the railroad checks.  The finding class
+slug names what the model contains that the printers treat specially (`features`), so that one cause has
+one slug; it never decides pass/fail.
 """
 from __future__ import annotations
 
@@ -53,13 +61,17 @@ def deadline(seconds):
     def _h(signum, frame):
         raise CaseTimeout()
 
+    outer_left = signal.getitimer(signal.ITIMER_REAL)[0]  # an enclosing deadline keeps running
+    t0 = time.time()
     old = signal.signal(signal.SIGALRM, _h)
-    signal.setitimer(signal.ITIMER_REAL, seconds)
+    signal.setitimer(signal.ITIMER_REAL, seconds if not outer_left else min(seconds, outer_left))
     try:
         yield
     finally:
         signal.setitimer(signal.ITIMER_REAL, 0)
         signal.signal(signal.SIGALRM, old)
+        if outer_left:
+            signal.setitimer(signal.ITIMER_REAL, max(outer_left - (time.time() - t0), 0.01))
 
 
 def strings(alpha, maxlen, minlen=1):
@@ -171,16 +183,28 @@ def rule_facts(r):
     }
 
 
+REGEX_KEYS = ('whitespace', 'comments', 'eol_comments')
+
+
+def norm_regex(v):
+    """`\\/` and `/` are the same regex; the printers may write either."""
+    if not isinstance(v, str):
+        return v
+    return re.sub(r'(?s)\\(.)', lambda m: '/' if m.group(1) == '/' else m.group(0), v)
+
+
 def norm_directives(d):
     d = dict(d or {})
     d.pop('grammar', None)  # the name; compared separately
-    return {k: [type(v).__name__, v] for k, v in sorted(d.items())}
+    return {k: [type(v).__name__, norm_regex(v) if k in REGEX_KEYS else v] for k, v in sorted(d.items())}
 
 
 def model_facts(m):
     cfg = {}
     for k in CONFIG_KEYS:
         v = getattr(m.config, k, None)
+        if k in REGEX_KEYS:
+            v = norm_regex(v)
         cfg[k] = [type(v).__name__, v if isinstance(v, (str, int, bool, type(None))) else repr(v)]
     return {
         'directives': norm_directives(m.directives),
@@ -270,7 +294,7 @@ def check_rails(m):
 
 
 # --------------------------------------------------------------------------- the round trip check
-def roundtrip(m, inputs, *, start=None, rails=True, parse_kw=None):
+def roundtrip(m, inputs, *, start=None, rails=True, parse_kw=None, short_if_same=0):
     """-> (failures [(cls, detail, input|None)], facts)"""
     fails = []
     kw = dict(parse_kw or {})
@@ -302,12 +326,20 @@ def roundtrip(m, inputs, *, start=None, rails=True, parse_kw=None):
     fails += [(c, d + f'; pretty text: {p!r}'[:300], None) for c, d in fd]
     hang = False
     ndiff = 0
+    if short_if_same and not fails:
+        try:
+            if leaves(m) == leaves(m2):
+                inputs = inputs[:short_if_same]  # same texts, same pretty text, same facts: a short battery is enough
+        except Exception:  # noqa: BLE001
+            pass
     for text in inputs:
         o1 = outcome(m, text, **kw)
         if o1[0] == 'timeout':
             hang = True
             break
         o2 = outcome(m2, text, **kw)
+        if o2[0] == 'timeout':  # a loaded machine must not look like a disagreement: once more, with a long limit
+            o2 = outcome(m2, text, timeout=30.0, **kw)
         if o1 != o2:
             ndiff += 1
             if ndiff <= 1:
@@ -405,7 +437,7 @@ def structure_cases(tier, seed):
             for (c1, f1), (c2, f2) in itertools.product(CONTEXTS, CONTEXTS):
                 pool.append((kname, kfrag, c1, f1, c2, f2))
         rng.shuffle(pool)
-        for kname, kfrag, c1, f1, c2, f2 in pool[:9000]:
+        for kname, kfrag, c1, f1, c2, f2 in pool[:6000]:
             body = f2.format(x=f1.format(x=kfrag))
             text = f"{AUX}start = {body} $ ;\n"
             cases.append(dict(group='structure2', kind=kname, ctx=f'{c1}>{c2}', via='text', text=text, start='start'))
@@ -427,7 +459,6 @@ RULE_CASES = [
     ('define-bnf', "start ::= 'a' $ ;"),
     ('define-walrus', "start := 'a' $ ;"),
     ('endrule-blank', "start = 'a' b $\n\nb = 'b'\n"),
-    ('endrule-dedent', "start =\n    'a' b\nb =\n    'b'\n"),
     ('deco-name', "start = n $ ;\n@name\nn = /[a-z]+/ ;"),
     ('deco-isname', "start = n $ ;\n@isname\nn = /[a-z]+/ ;"),
     ('deco-nomemo', "start = n $ ;\n@nomemo\nn = /[a-z]+/ ;"),
@@ -687,6 +718,8 @@ def witness_of(case, inp=None):
     return w
 
 
+MUST_BUILD = ('rules', 'antlr', 'files')
+PLAIN_NOT_GRAMMAR = ('seq-comma',)  # `'a', 'b' $` is not a sequence; the comma form is reached inside brackets
 SEVERITY = ('pretty', 'recompile', 'parse', 'meta', 'fixpoint')
 
 
@@ -770,6 +803,11 @@ def run_case(case):
     res = dict(status='ok', fails=[], key=None, group=case['group'], kind=case['kind'], via=case['via'], n_inputs=0, variants=0)
     m, why = build_original(case)
     if m is None:
+        if case['group'] in MUST_BUILD or (case['group'] == 'structure' and case['ctx'] == 'plain' and case['kind'] not in PLAIN_NOT_GRAMMAR):
+            # these are grammars the pinned tree accepts: a run that silently skipped them would be vacuous
+            res['status'] = 'fail'
+            res['fails'].append((f'{case["group"]}-{case["kind"]}/original-model-not-built', f'the model could not be built: {why}', witness_of(case)))
+            return res
         res['status'] = 'skip'
         res['why'] = why
         return res
@@ -814,7 +852,7 @@ def run_case(case):
             inputs = base_battery()
         c = dict(case)
         c['variant'] = vname
-        fails, facts = roundtrip(vm, inputs, start=case.get('start'), rails=True)
+        fails, facts = roundtrip(vm, inputs, start=case.get('start'), rails=True, short_if_same=12 if case['group'] == 'atoms' else 0)
         p = facts.get('pretty')
         seen_pretty.add(p)
         res['n_inputs'] += len(inputs)
@@ -860,8 +898,8 @@ def _work(chunk):
 GROUP_DOC = {
     'structure': ('term kinds x contexts', 'every production of term/atom/named/override/closure/join/gather/lookahead/skip-to in '
                   f'_tatsu.ebnf ({len(KINDS)} kinds) placed in {len(CONTEXTS)} contexts; each model also via JSON reload and optimized(); '
-                  'inputs: all strings <= 3 over {a,b,",",space} + 40 fixed + the grammar\'s own words'),
-    'structure2': ('term kinds x context x context (seeded sample)', 'as structure, contexts nested two deep, 9000 sampled by seed'),
+                  'inputs: all strings <= 2 over {a,b,",",space} + 70 fixed ones (longer, with line breaks, numbers, booleans, other letters) + the grammar\'s own words'),
+    'structure2': ('term kinds x context x context (seeded sample)', 'as structure, contexts nested two deep, 6000 sampled by seed'),
     'rules': ('rule headers, decorators, based rules, includes, directives, keywords',
               f'{len(RULE_CASES)} grammars: params/kwparams of every literal type, all definition operators, @name/@isname/@nomemo/'
               '@nostak/@override, `<` based rules, `>` includes, every @@directive and @@keyword form; inputs chosen so that every '
